@@ -81,6 +81,7 @@ def case(rng):
 def side(t):
     g = c05.observe('C05', t)
     try:
+        cobs.prelude()
         p = cobs.paras_obs(cr.DebianCopyright.from_text(t))
     except Exception as e:
         p = Exc(type(e).__name__)
